@@ -216,6 +216,15 @@ Definition pub_stop : M :=
   (fun s => if s_hUnDemand s then (hook_close HDemand ;; modify (set_hUnDemand false)) s else panic s) ;;
   modify (set_pubState OdInitial).
 
+(* addReaderPost, tail: a reader arrived while the close timer was running *)
+Definition bump_on_demand (s : pstate) : pstate :=
+  let cf := s_conf s in
+  if od_static cf then
+    (if ods_eqb (s_ssState s) OdClosing then set_ssCloseT false (set_ssState OdReady s) else s)
+  else if od_pub cf then
+    (if ods_eqb (s_pubState s) OdClosing then set_pubCloseT false (set_pubState OdReady s) else s)
+  else s.
+
 (* addReaderPost *)
 Definition add_reader_post (q r : Z) : M :=
   fun s =>
@@ -223,15 +232,7 @@ Definition add_reader_post (q r : Z) : M :=
     if mem r (s_readers s) then (s, [EAnswer q (AStream (cur_stream s))])
     else if negb (c_maxr cf =? 0) && (c_maxr cf <=? Z.of_nat (length (s_readers s)))
     then (s, [EAnswer q (AErr E_MAXREADERS)])
-    else
-      let s1 := set_readers (s_readers s ++ [r]) s in
-      let s2 :=
-        if od_static cf then
-          (if ods_eqb (s_ssState s1) OdClosing then set_ssCloseT false (set_ssState OdReady s1) else s1)
-        else if od_pub cf then
-          (if ods_eqb (s_pubState s1) OdClosing then set_pubCloseT false (set_pubState OdReady s1) else s1)
-        else s1 in
-      (s2, [EAnswer q (AStream (cur_stream s))]).
+    else (bump_on_demand (set_readers (s_readers s ++ [r]) s), [EAnswer q (AStream (cur_stream s))]).
 
 Fixpoint add_readers_post (l : list (Z * Z)) : M :=
   match l with
